@@ -157,3 +157,12 @@ func SetBudget(n int64) {
 		S.budget = n
 	}
 }
+
+// Disarm switches every statement site off again.
+//
+//go:norace
+func (s *Sim) Disarm() {
+	for i := range s.armed {
+		s.armed[i] = false
+	}
+}
